@@ -61,3 +61,13 @@ package annotation
 //@ ensures shallow-value-replayed (=> val.IsNilableSet (and (= (dyn 0 arg 0) key) (= (dyn 0 arg 1) false) (= (dyn 0 arg 2) val.IsNilable)))
 //@ ensures deep-value-replayed-after-shallow (=> (and val.IsNilableSet val.IsDeepNilableSet) (and (= (dyn 1 arg 0) key) (= (dyn 1 arg 1) true) (= (dyn 1 arg 2) val.IsDeepNilable)))
 //@ ensures deep-value-replayed-alone (=> (and (not val.IsNilableSet) val.IsDeepNilableSet) (and (= (dyn 0 arg 0) key) (= (dyn 0 arg 1) true) (= (dyn 0 arg 2) val.IsDeepNilable)))
+
+//@ -- C10 (reading an explicit annotation): whatever the type of the site - including an unknown (nil) type, as for an
+//@ -- untyped package-level variable - an explicit nilable/nonnil (shallow or deep) annotation found in the set is
+//@ -- returned as set, with its value; type-based defaults only fill what the annotation leaves unset and are never "set".
+//@ func (nilabilitySet).checkNilability
+//@ prop C10
+//@ ensures explicit-shallow-annotation-kept (=> (and (old (mapin set name)) (old (. (mapget set name) IsNilableSet))) (and result.IsNilableSet (= result.IsNilable (old (. (mapget set name) IsNilable)))))
+//@ ensures explicit-deep-annotation-kept (=> (and (old (mapin set name)) (old (. (mapget set name) IsDeepNilableSet))) (and result.IsDeepNilableSet (= result.IsDeepNilable (old (. (mapget set name) IsDeepNilable)))))
+//@ ensures defaults-are-never-set (=> (and (not (. (global EmptyVal) IsNilableSet)) (not (. (global EmptyVal) IsDeepNilableSet)))
+//@    (and (=> result.IsNilableSet (and (old (mapin set name)) (old (. (mapget set name) IsNilableSet)))) (=> result.IsDeepNilableSet (and (old (mapin set name)) (old (. (mapget set name) IsDeepNilableSet))))))
